@@ -733,3 +733,51 @@ def suppression(ctx, res):
             if not hits:
                 res.oblige(True, qual, "", "")
     res.floor(1)
+
+
+# ---------------------------------------------------------------------------
+# C14.copy-metadata-resolved: copy_traits (the worker of clone_traits and
+# __deepcopy__) decides per name between reference, shallow and deep copy
+# from the `copy` metadata.  For a deferred attribute that metadata lives on
+# the trait the value is finally stored in (`base_trait`), not on the
+# deferring trait: both loops of copy_traits must read it there.
+
+@rule("C14.copy-metadata-resolved", ["C14"],
+      "copy_traits reads the `copy` metadata from the delegation-resolved "
+      "trait of the source object (base_trait) in both its loops")
+def copy_metadata_resolved(ctx, res):
+    from ..pyfacts import expand_locals
+    repo = get_pyrepo(ctx)
+    rel = "traits/has_traits.py"
+    mod = repo.module(rel)
+    fn = repo.inlined(rel, "HasTraits.copy_traits")
+    ps = [a.arg for a in fn.args.args]
+    otherp = ps[1]
+    reads = [a for a in ast.walk(fn) if isinstance(a, ast.Attribute)
+             and a.attr == "copy" and isinstance(a.ctx, ast.Load)
+             and not (isinstance(a.value, ast.Name)
+                      and a.value.id in ("copy_module", "copy"))]
+    if len(reads) < 1:
+        raise AnalysisError("copy_traits: no read of the copy metadata")
+    for i, a in enumerate(reads):
+        v = a.value
+        # a local bound once inside the loop (`base_trait = other.base_trait(name)`)
+        if isinstance(v, ast.Name):
+            defs = [x.value for x in ast.walk(fn) if isinstance(x, ast.Assign)
+                    and len(x.targets) == 1
+                    and isinstance(x.targets[0], ast.Name)
+                    and x.targets[0].id == v.id]
+            if len(defs) == 1:
+                v = defs[0]
+        okk = isinstance(v, ast.Call) and isinstance(v.func, ast.Attribute) \
+            and v.func.attr == "base_trait" \
+            and norm(v.func.value) == otherp
+        key = f"copy_traits:copy-metadata[{i}]"
+        res.instance(key, mod.loc(a))
+        res.oblige(okk, key + ":resolved", mod.loc(a),
+                   f"the copy mode is read from `{norm(v)[:60]}`: for a "
+                   f"deferred attribute the `copy` metadata of the trait "
+                   f"that holds the value (`{otherp}.base_trait(name)`) is "
+                   f"ignored - a delegated List/Instance with copy='deep' is "
+                   f"shared between the original and the clone")
+    res.floor(2)
